@@ -56,9 +56,10 @@ func sameSnap(a *asset.Snapshot, w repoSnap) bool {
 }
 
 type repoUnderTest struct {
-	kind string
-	repo asset.Repository
-	db   *fakeDB
+	kind   string
+	repo   asset.Repository
+	db     *fakeDB
+	closer interface{ Close() error }
 }
 
 func parseRowsOrErr(raw json.RawMessage) ([]repoSnap, bool) {
@@ -197,6 +198,52 @@ func checkReads(u *repoUnderTest, rd *repoReads, names []string, bad func(string
 	return checks
 }
 
+// The abstract names of the model are instantiated with awkward concrete asset names, rotating per history: names made
+// of the characters of the ".csv" suffix, with dots, spaces, upper case, non-ASCII letters, a name that itself ends in .csv.
+var namePoolA = []string{"a", "cvs", "BRK.B", "x y", "abcs", "aapl.csv", "ünï", "v"}
+var namePoolB = []string{"b", "vs", "brk-b", "s", "c.s.v", "MSFT", "csv", "b_2"}
+var namePoolG = []string{"ghost", "svc", "never.appended", "vv", "g h", "cs", "GHOST", "a.csv.csv"}
+
+// renRepo presents a repository under the model's abstract names.
+type renRepo struct {
+	inner asset.Repository
+	to    map[string]string // abstract -> concrete
+}
+
+func (r *renRepo) c(n string) string {
+	if x, ok := r.to[n]; ok {
+		return x
+	}
+	return n
+}
+func (r *renRepo) Assets() ([]string, error) {
+	as, err := r.inner.Assets()
+	if err != nil {
+		return nil, err
+	}
+	back := map[string]string{}
+	for a, c := range r.to {
+		back[c] = a
+	}
+	out := make([]string, len(as))
+	for i, x := range as {
+		if a, ok := back[x]; ok {
+			out[i] = a
+		} else {
+			out[i] = "<" + x + ">" // a name the repository was never given
+		}
+	}
+	return out, nil
+}
+func (r *renRepo) Get(n string) (<-chan *asset.Snapshot, error) { return r.inner.Get(r.c(n)) }
+func (r *renRepo) GetSince(n string, d time.Time) (<-chan *asset.Snapshot, error) {
+	return r.inner.GetSince(r.c(n), d)
+}
+func (r *renRepo) LastDate(n string) (time.Time, error) { return r.inner.LastDate(r.c(n)) }
+func (r *renRepo) Append(n string, s <-chan *asset.Snapshot) error {
+	return r.inner.Append(r.c(n), s)
+}
+
 func replayRepoMain(args []string) {
 	f, err := os.Open(args[0])
 	if err != nil {
@@ -220,8 +267,10 @@ func replayRepoMain(args []string) {
 	}
 	var out []mm
 	nh, checks := 0, 0
-	names := []string{"a", "b", "ghost"}
 	for sc.Scan() {
+		k := nh % len(namePoolA)
+		concrete := map[string]string{"a": namePoolA[k], "b": namePoolB[k], "ghost": namePoolG[k]}
+		names := []string{"a", "b", "ghost"}
 		var steps []repoStep
 		if err := json.Unmarshal(sc.Bytes(), &steps); err != nil {
 			fmt.Fprintln(os.Stderr, "bad history:", err)
@@ -241,8 +290,8 @@ func replayRepoMain(args []string) {
 		dir := filepath.Join(tmp, fmt.Sprintf("h%d", nh))
 		os.MkdirAll(dir, 0o755)
 		under := []*repoUnderTest{
-			{kind: "memory", repo: asset.NewInMemoryRepository()},
-			{kind: "filesystem", repo: asset.NewFileSystemRepository(dir)},
+			{kind: "memory", repo: &renRepo{asset.NewInMemoryRepository(), concrete}},
+			{kind: "filesystem", repo: &renRepo{asset.NewFileSystemRepository(dir), concrete}},
 		}
 		dbName := fmt.Sprintf("db%d", nh)
 		if sqlOK {
@@ -251,7 +300,7 @@ func replayRepoMain(args []string) {
 				fmt.Fprintln(os.Stderr, "sql repository:", err)
 				os.Exit(3)
 			}
-			under = append(under, &repoUnderTest{kind: "sql", repo: r, db: getFakeDB(dbName)})
+			under = append(under, &repoUnderTest{kind: "sql", repo: &renRepo{r, concrete}, db: getFakeDB(dbName), closer: r})
 		}
 		for _, u := range under {
 			for si, s := range steps {
@@ -307,8 +356,8 @@ func replayRepoMain(args []string) {
 				}
 				checks += checkReads(u, &s.Reads, names, bad)
 			}
-			if c, ok := u.repo.(interface{ Close() error }); ok {
-				c.Close()
+			if u.closer != nil {
+				u.closer.Close()
 			}
 		}
 		dropFakeDB(dbName)
